@@ -81,6 +81,14 @@ func (e *SpecEnv) resolveType(te ast.Expr) types.Type {
 		return types.NewPointer(e.resolveType(t.X))
 	case *ast.SelectorExpr:
 		if id, ok := t.X.(*ast.Ident); ok && e.pkg != nil {
+			if id.Name == e.pkg.Name() {
+				// the package referring to itself by name (a contract written for callers of this package)
+				if o := e.pkg.Scope().Lookup(t.Sel.Name); o != nil {
+					if tn, ok := o.(*types.TypeName); ok {
+						return tn.Type()
+					}
+				}
+			}
 			if imp := e.importNamed(id.Name); imp != nil {
 				if o := imp.Scope().Lookup(t.Sel.Name); o != nil {
 					if tn, ok := o.(*types.TypeName); ok {
@@ -202,7 +210,7 @@ func (e *SpecEnv) objTerm(obj types.Object) (Term, bool) {
 		}
 		if o.Parent() != nil && o.Pkg() != nil && o.Parent() == o.Pkg().Scope() {
 			g := e.x.loadGlobal(e.st, o)
-			e.x.ctx.declOnce("ti:"+g.S, "(assert "+e.x.typeInv(e.x.allocStateFor(e.st, g.S), g)+")")
+			e.x.ctx.declOnceKeyed("ti:"+g.S, g.S, "(assert "+e.x.typeInv(e.x.allocStateFor(e.st, g.S), g)+")")
 			return g, true
 		}
 		return Term{}, false
@@ -362,7 +370,7 @@ func (e *SpecEnv) selectField(a Term, name string, ex ast.Expr) Term {
 			// name the loaded value and state that it is well-typed (a global fact about well-typed heaps)
 			heap := x.memTerm(e.st, fieldKey(st, f.Name()), "(Array Int "+x.ctx.sortOf(f.Type())+")")
 			v = x.define(e.st, f.Name(), v)
-			x.ctx.declOnce("ti:"+v.S, "(assert "+x.typeInv(x.allocStateForRef(e.st, heap.S, a), v)+")")
+			x.ctx.declOnceKeyed("ti:"+v.S, v.S, "(assert "+x.typeInv(x.allocStateForRef(e.st, heap.S, a), v)+")")
 		}
 		return v
 	}
@@ -467,6 +475,26 @@ func goDiv(a, b string) string {
 	return app("ite", app(">=", a, "0"), app("div", a, b), app("-", app("div", app("-", a), b)))
 }
 func goRem(a, b string) string { return app("-", a, app("*", b, goDiv(a, b))) }
+
+func isSelector(e ast.Expr) bool { _, ok := e.(*ast.SelectorExpr); return ok }
+
+// tryType resolves a type expression, returning nil when it is not a type.
+func (e *SpecEnv) tryType(te ast.Expr) (t types.Type) {
+	defer func() {
+		if r := recover(); r != nil {
+			if _, ok := r.(staleErr); ok {
+				t = nil
+				return
+			}
+			panic(r)
+		}
+	}()
+	switch te.(type) {
+	case *ast.Ident, *ast.SelectorExpr:
+		return e.resolveType(te)
+	}
+	return nil
+}
 
 func (e *SpecEnv) findSpec(name string) *SpecDef {
 	if e.x.ghosts != nil {
@@ -578,7 +606,39 @@ func (e *SpecEnv) call(n *ast.CallExpr) Term {
 		}
 		return Term{S: fmt.Sprintf("(forall (%s) %s)", strings.Join(binds, " "), f), Sort: "Bool", T: boolT}
 	}
+	strQuant := func(q string) Term {
+		// forallS(k, P) / existsS(k, P): k ranges over strings
+		argN(2)
+		id, ok := n.Args[0].(*ast.Ident)
+		if !ok {
+			e.stale("quantifier variable must be an identifier")
+		}
+		c := fmt.Sprintf("%s?%d", id.Name, e.depth)
+		inner := e.with(id.Name, Term{S: c, Sort: "Str", T: types.Typ[types.String]})
+		inner.depth = e.depth + 1
+		b := inner.boolean(n.Args[1])
+		var pats []string
+		for _, r := range n.Args[2:] {
+			call, ok := r.(*ast.CallExpr)
+			if !ok || exprString(call.Fun) != "trig" {
+				e.stale("extra quantifier argument must be trig(...)")
+			}
+			var ts []string
+			for _, a := range call.Args {
+				ts = append(ts, inner.expr(a).S)
+			}
+			pats = append(pats, ":pattern ("+strings.Join(ts, " ")+")")
+		}
+		if len(pats) > 0 {
+			b = "(! " + b + " " + strings.Join(pats, " ") + ")"
+		}
+		return Term{S: fmt.Sprintf("(%s ((%s Str)) %s)", q, c, b), Sort: "Bool", T: boolT}
+	}
 	switch fname {
+	case "forallS":
+		return strQuant("forall")
+	case "existsS":
+		return strQuant("exists")
 	case "forall2":
 		return multi(2)
 	case "forall3":
@@ -671,6 +731,9 @@ func (e *SpecEnv) call(n *ast.CallExpr) Term {
 			if arr, ok := a.T.Underlying().(*types.Array); ok && arr.Len() > 0 {
 				return mkInt(arr.Len())
 			}
+			if mt, ok := a.T.Underlying().(*types.Map); ok {
+				return x.mapLen(e.st, a, mt)
+			}
 		}
 		e.stale("len of %s", exprString(n.Args[0]))
 	case "cap":
@@ -702,6 +765,17 @@ func (e *SpecEnv) call(n *ast.CallExpr) Term {
 			}
 		}
 		e.stale("view() of a non-ground or non-slice value")
+	case "iface":
+		// iface(v): the value v stored in an interface (dynamic type = static type of v)
+		argN(1)
+		a := e.expr(n.Args[0])
+		if a.Sort == "Iface" {
+			return a
+		}
+		if a.T == nil {
+			e.stale("iface() of a value without a Go type")
+		}
+		return Term{S: app("mk-iface", fmt.Sprint(x.ctx.typeTag(a.T)), x.boxPayload(a)), Sort: "Iface", T: types.NewInterfaceType(nil, nil)}
 	case "raw":
 		// raw(s): the whole backing array of slice s as a sequence indexed by absolute offset (s[k] = raw(s)[off(s)+k])
 		argN(1)
@@ -747,6 +821,17 @@ func (e *SpecEnv) call(n *ast.CallExpr) Term {
 		a := e.expr(n.Args[0])
 		t := e.resolveType(n.Args[1])
 		return x.unboxPayload(app("i-val", a.S), t)
+	case "nonempty":
+		// nonempty(m): the map has at least one key
+		argN(1)
+		a := e.expr(n.Args[0])
+		if a.T != nil {
+			if mt, ok := a.T.Underlying().(*types.Map); ok {
+				ks := x.ctx.sortOf(mt.Key())
+				return Term{S: fmt.Sprintf("(exists ((k?m %s)) %s)", ks, x.mapHas(e.st, a, mt, Term{S: "k?m", Sort: ks}).S), Sort: "Bool", T: boolT}
+			}
+		}
+		e.stale("nonempty() of a non-map")
 	case "has":
 		// has(m, k): map membership
 		argN(2)
@@ -761,6 +846,18 @@ func (e *SpecEnv) call(n *ast.CallExpr) Term {
 		a := e.expr(n.Args[0])
 		a.T = types.Universe.Lookup(fname).Type()
 		return a
+	}
+	// conversion T(v) to a named non-interface type (e.g. action.Reduce(i))
+	if len(n.Args) == 1 && fname != "" || isSelector(n.Fun) {
+		if t := e.tryType(n.Fun); t != nil {
+			if _, isI := t.Underlying().(*types.Interface); !isI && len(n.Args) == 1 {
+				a := e.expr(n.Args[0])
+				if a.Sort == x.ctx.sortOf(t) {
+					a.T = t
+					return a
+				}
+			}
+		}
 	}
 	// spec function / ghost function
 	if sd := e.findSpec(fname); sd != nil {
